@@ -187,6 +187,10 @@ pub fn tx_alphabet(n: &Node, cfg: &AlphaCfg) -> Vec<(String, Transaction, bool)>
             acc.push(("missing-input".into(), tx_t(TxKind::Normal, vec![c.0, missing], vec![out_t(v, Denom::Mel)], 0, vec![]), false));
             acc.push(("value-above-max".into(), tx_t(TxKind::Normal, vec![c.0], vec![out_t((1u128 << 120) + 1, Denom::Mel)], 0, vec![]), false));
             acc.push(("wrongcov".into(), mktx(TxKind::Normal, vec![c.0], vec![out_t(v, Denom::Mel)], 0, vec![cov_false().to_bytes()], vec![]), false));
+            // a transaction that consumes nothing could be applied again and again: its "own newly created token" would be issued anew each time
+            acc.push(("no-inputs-new-token".into(), tx_t(TxKind::Normal, vec![], vec![out_t(500, Denom::NewCustom)], 0, vec![0x4e]), false));
+            // a zero-valued coin of a denomination the transaction has no input of (arithmetically balanced)
+            acc.push(("zero-valued-foreign-output".into(), tx_t(TxKind::Normal, vec![c.0], vec![out_t(v, Denom::Mel), out_t(0, Denom::Custom(HashVal([0x77; 32]).into()))], 0, vec![]), false));
             acc.push(("underpaid-zero-outs".into(), tx_t(TxKind::Normal, vec![c.0], vec![], 0, vec![]), false));
             if v > 256 {
                 let outs: Vec<CoinData> = (0..256).map(|i| out_t(if i == 0 { v - 255 } else { 1 }, Denom::Mel)).collect();
